@@ -4,6 +4,8 @@
 #include "w.h"
 #include "vp.h"
 #include "h_stubs.h"
+/* oracle check inside an observer: a path that violated it is reported and not followed any further (a re-executed task would otherwise spin in the dispatcher) */
+#define VP_CHECK(c, msg) do { VP_ASSERT(c, msg); __CPROVER_assume(c); } while (0)
 
 /* ---- observers / oracle state.  Body ids: group 0: 0..N-1 (SCEN 2: N = the run_and_wait body; SCEN 3: 0,1 outer), inner group: 10.., reuse: 100 */
 u32 THROW;                       /* bit per body id (see bit()) */
@@ -23,19 +25,19 @@ static int grp(u32 i) {
 }
 void vp_body(u32 i) {
   int g = grp(i);
-  VP_ASSERT(i < 128, "VP: body id");
-  VP_ASSERT(runs[i] == 0, "a task body ran twice");
+  VP_CHECK(i < 128, "VP: body id");
+  VP_CHECK(runs[i] == 0, "a task body ran twice");
   runs[i]++;
-  VP_ASSERT(!wait_seen[g], "a body of the group started after the wait for that group had returned");
-  VP_ASSERT(!grp_threw[g], "a body started although an exception of the same group had already been captured (group not cancelled)");
+  VP_CHECK(!wait_seen[g], "a body of the group started after the wait for that group had returned");
+  VP_CHECK(!grp_threw[g], "a body started although an exception of the same group had already been captured (group not cancelled)");
 #if SCEN == 3
-  if (g == 1) VP_ASSERT(!grp_threw[0], "a body of the nested group started although the enclosing group had already captured an exception");
+  if (g == 1) VP_CHECK(!grp_threw[0], "a body of the nested group started although the enclosing group had already captured an exception");
 #endif
 #if SCEN == 1
-  if (i == 100) VP_ASSERT(wait_seen[0] == 1, "reuse body ran before the first wait returned");
+  if (i == 100) VP_CHECK(wait_seen[0] == 1, "reuse body ran before the first wait returned");
 #endif
   if ((THROW >> bit(i)) & 1) {
-    VP_ASSERT(nthrown < MAXT, "VP bound: number of throws");
+    VP_CHECK(nthrown < MAXT, "VP bound: number of throws");
     vp_throw_user(&ti_user); thrown[nthrown] = vp_exc; thrown_grp[nthrown] = g; nthrown++; grp_threw[g] = 1;
   }
 }
@@ -43,22 +45,22 @@ void vp_note(u32 what, u32 g) {
   if (what == 1) caught_at_wait[g] = vp_exc_current();
 #if SCEN == 3
   /* the enclosing task lets the inner wait's exception escape: it becomes an exception of the enclosing group's work */
-  if (what == 2) { grp_threw[0] = 1; VP_ASSERT(nthrown < MAXT, "VP bound: number of throws"); thrown[nthrown] = vp_exc_current(); thrown_grp[nthrown] = 0; nthrown++; }
+  if (what == 2) { grp_threw[0] = 1; VP_CHECK(nthrown < MAXT, "VP bound: number of throws"); thrown[nthrown] = vp_exc_current(); thrown_grp[nthrown] = 0; nthrown++; }
 #endif
 }
 void vp_wait_result(u32 g, u32 st, u32 threw, u32 cancelled_after) {
   wait_seen[g]++; wait_status[g] = (int)st; wait_threw[g] = (int)threw;
-  VP_ASSERT(wait_seen[g] == 1, "wait reported twice");
-  VP_ASSERT((int)threw == grp_threw[g], "wait must rethrow iff work of the group threw (exception swallowed or invented)");
+  VP_CHECK(wait_seen[g] == 1, "wait reported twice");
+  VP_CHECK((int)threw == grp_threw[g], "wait must rethrow iff work of the group threw (exception swallowed or invented)");
   if (threw) {
     int ok = 0;
     for (int k = 0; k < MAXT; k++) if (k < nthrown && thrown_grp[k] == (int)g && thrown[k] == caught_at_wait[g]) ok = 1;
-    VP_ASSERT(ok, "the exception rethrown by wait is not one thrown by the group's work");
+    VP_CHECK(ok, "the exception rethrown by wait is not one thrown by the group's work");
   } else {
-    VP_ASSERT(st == 1, "wait without exception/cancellation must report complete");
+    VP_CHECK(st == 1, "wait without exception/cancellation must report complete");
   }
-  VP_ASSERT(!cancelled_after, "the group's context is still cancelled after wait (group not reusable)");
-  VP_ASSERT(vp_pool_left() == 0 || (SCEN == 3 && g == 1), "tasks left in the pool when the wait returned");
+  VP_CHECK(!cancelled_after, "the group's context is still cancelled after wait (group not reusable)");
+  VP_CHECK(vp_pool_left() == 0 || (SCEN == 3 && g == 1), "tasks left in the pool when the wait returned");
   grp_threw[g] = 0;   /* the group is reusable from here on */
 }
 int main(void) {
@@ -94,6 +96,7 @@ int main(void) {
   VP_ASSERT(vp_exc_destroyed == vp_exc_thrown, "an exception object was leaked or destroyed twice");
   VP_ASSERT(n_eptr_alloc == n_eptr_free, "tbb_exception_ptr storage leaked or freed twice");
   VP_ASSERT(n_task_alloc == n_task_free, "a task object was leaked or released twice");
+  VP_ASSERT(vp_rethrows == wait_threw[0] + wait_threw[1], "a captured exception is rethrown exactly once per wait that reports it");
 #endif
   VP_REACHED();
   return 0;
